@@ -70,7 +70,7 @@ CHECKS = {
              "re-ordered row is, zero-based indices, mapped and displayed mode-shape values). Every case goes through "
              "check_on_geo1/2, def_geo1/2 on SingleSetup / MultiSetup_PreGER / MultiSetup_PoSER, dfphi_map_func and the Agg "
              "artists of plot_mode_geo1 / plot_mode_geo2_mpl (sensor k sits at (10k, k, -k) and carries component k+1; the result "
-             "holds two modes and mode number 1 must draw the first).",
+             "holds two modes and mode number 1 must draw the first). Every valid table set is defined twice from the same table objects.",
         ref="DESIGN.md §4.8, §5 C19, §6",
         note="Trusted: TLC, pandas DataFrames shaped as read_excel(sheet_name=None, index_col=0) returns them (openpyxl is "
              "not installed offline: reading .xlsx itself is outside the claim), matplotlib 3D artist accessors. Name forms "
@@ -115,7 +115,7 @@ CHECKS = {
              "matplotlib event to a real head-less SelFromPlot (SSI, pLSCF, FDD variants) and lists + marker artist "
              "are compared with the abstract selection; complete behaviours are replayed inside the real "
              "mpe_from_plot of SSIcov / pLSCF / FDD and the extracted modes must be the selected cells. Direction B: "
-             "recorded runs of the real dialog (10..14 events on 5 x 6 tables) validated against TracePick.tla.",
+             "recorded runs of the real dialog (10..14 events on 5 x 6 tables) validated against TracePick.tla. Includes runs with ordmin > 0.",
         ref="DESIGN.md §4.6, §5 C16",
         note="Trusted: TLC, harness/headless.py (Tk stand-ins; events enter through the dialog's own canvas wiring). "
              "Exact ties may resolve either way. Diagram drawing is stubbed during the walk (real in the hand-over).",
@@ -141,7 +141,7 @@ CHECKS = {
              "which global sensor every merged row is, that every row carries the first setup's factor, and exact rational "
              "statistics. Every case is merged by gen.merge_mode_shapes, gen.flatten_sns_names and "
              "MultiSetup_PoSER.merge_results (real SingleSetups, stub algorithms) for real and complex Gaussian-integer "
-             "shapes and compared at 1e-12; mean and (population std / mean)^2 against the exact rationals.",
+             "shapes and compared at 1e-12; mean and (population std / mean)^2 against the exact rationals. The judged merge_results call follows an earlier merge of other results on the same PoSER object (history must not show).",
         ref="DESIGN.md §4.2, §4.3, §5 C02",
         note="Trusted: TLC, exact Fractions / Gaussian integers of harness/tables.py. The end-to-end clause (shapes from SSI "
              "runs) is covered through Ident.tla in the C01/C03 machinery when present.",
@@ -167,7 +167,7 @@ CHECKS = {
              "which setup a roving row belongs to. Every case: setups cut from one recording -> SD_PreGER must equal SD_est "
              "of the channels in global order against the reference channels on the same grid (1e-7 on well-conditioned "
              "lines); with per-setup gains the reference block must be the mean of the per-setup reference blocks and every "
-             "roving block that setup's transmissibility applied to the mean. FDD_MS / EFDD_MS / pLSCF_MS results likewise.",
+             "roving block that setup's transmissibility applied to the mean. FDD_MS / EFDD_MS / pLSCF_MS results likewise. Class-level runs are judged after an earlier run with another overlap; overlap fractions with a non-integer product with the segment length are included.",
         ref="DESIGN.md §4.7, §5 C04",
         note="Trusted: TLC; clause (i) compares two outputs of the library (the specification supplies correspondence and "
              "parameters); numpy.linalg.solve for transmissibilities. Lines with cond(reference block) > 1e8 not judged.",
@@ -237,7 +237,7 @@ CHECKS = {
              "limits, covariance below / above the maximum) and every on/off combination of the criteria, and checks "
              "Sound, Complete, ValuesUnchanged; every case is injected as the unfiltered solution of the real run() of "
              "SSIdat, SSIcov, SSIdat_MS, SSIcov_MS, pLSCF, pLSCF_MS and the NaN pattern of every stored table must equal "
-             "the specification's post-state, retained values bit-identical.",
+             "the specification's post-state, retained values bit-identical. The judged run is the third run of the same algorithm object (after the strictest hard criteria and other soft tolerances).",
         ref="DESIGN.md §4.5, §5 C09",
         note="Trusted: TLC, harness/poles_world.py (catalogue -> numpy tables with real conjugate twin rows; the "
              "pole-producing functions are patched in the harness process), gen.MPC/gen.MPD as classifiers of the "
@@ -250,7 +250,7 @@ CHECKS = {
              "placements of [ordmin, ordmax] over 5 columns for both column<->order maps, computes the set of admissible "
              "labels per cell (two only on an exact tie) and checks NeverStable, LabelsDecided, LabelsPure; every case is "
              "labelled by the real gen.SC_apply and by real SSIcov / SSIdat_MS / pLSCF / pLSCF_MS runs on injected tables (the "
-             "single- and multi-setup classes each have their own copy of the labelling call).",
+             "single- and multi-setup classes each have their own copy of the labelling call). The judged run is the third run of the same algorithm object (after the strictest hard criteria and other soft tolerances).",
         ref="DESIGN.md §4.5, §5 C10",
         note="Trusted: TLC, harness/poles_world.py. Catalogue values sit >= 10 % away from every tolerance. step = 1.",
         technique="TLC model checking of Poles.tla (Label) + replay of every case through SC_apply and the class runs",
@@ -260,7 +260,7 @@ CHECKS = {
              "unstable poles) and requests (1..3 frequencies; order int, list, find_min) and computes the admissible "
              "answer cells per request; checks Whole, OnlyIfClose, NearestReturned, Minimal; every case is handed to "
              "SSI_mpe, pLSCF_mpe, SSIcov.mpe, pLSCF.mpe and each returned mode must be bit-identical to one admissible "
-             "cell in every attribute (frequency, damping, shape, frequency / damping / shape covariances), reported order included.",
+             "cell in every attribute (frequency, damping, shape, frequency / damping / shape covariances), reported order included. Includes a user tolerance different from every library default (5 %, pole 2 % off) and an earlier find_min extraction on the same object.",
         ref="DESIGN.md §4.5, §5 C11",
         note="Trusted: TLC, harness/poles_world.py. Frequencies within rtol/10 of a request or >= 10 rtol away. One "
              "listed known finding (pLSCF_mpe find_min never returns anything; pinned by a baseline test).",
@@ -272,7 +272,7 @@ CHECKS = {
              "stab_plot, cluster_plot, SSIcov/pLSCF plot_stab/plot_cluster (with and without covariance error bars) "
              "and the marker artists are projected onto coordinate multisets (order coordinate = value accepted by "
              "extraction). Fdd.tla action DrawCMIF gives the exact dB ratios of the singular-value curves; every table is drawn "
-             "without frequency limits and with a window that leaves the peak of the first singular value outside.",
+             "without frequency limits and with a window that leaves the peak of the first singular value outside. Every judged diagram is drawn after an earlier diagram (other hide flag) of the same tables / object.",
         ref="DESIGN.md §4.5, §5 C20",
         note="Trusted: TLC, matplotlib artist accessors. Error-bar caps / LineCollections are not markers.",
         technique="TLC model checking of Poles.tla (Draw) / Fdd.tla (DrawCMIF) + replay through the plot functions and methods",
